@@ -203,6 +203,11 @@ def check_grouped(ck, n):
              ("any", bools("v", n)), ("any", ints("v", n)), ("all", bools("v", n)), ("all", ints("v", n)),
              ("max", SymArray([R.Sym(z3.Int(f"d{i}"), int) for i in range(n)], "datetime64[ns]")),
              ("min", SymArray([R.Sym(z3.Int(f"d{i}"), int) for i in range(n)], "datetime64[ns]"))]
+    # single-precision columns (survey files converted to save memory): eighths in +-2^15 are exact in float32
+    def f32():
+        return SymArray([R.Sym(z3.ToReal(z3.Int(f"v32_{i}")) / 8, float) for i in range(n)], "float32")
+    pre += [z3.And(z3.Int(f"v32_{i}") >= -2 ** 18, z3.Int(f"v32_{i}") <= 2 ** 18) for i in range(n)]
+    cases += [("sum", f32()), ("mean", SymArray(reals("v", n).e, "float32")), ("max", f32()), ("min", f32())]
     for kind, col in cases:
         f = getattr(A, f"grouped_{kind}")
         kw = {"group_id": gid} if kind == "count" else {"column": col, "group_id": gid}
@@ -598,6 +603,98 @@ def _specs_yield(ck, dag, usable, n, tag, dedupe):
                 common.spurious("C11", f"built-in spec {name}")
 
 
+def _restrict(kw, rows, keep_ptr):
+    """the columns of the rows `rows`; pointers of the rows not in keep_ptr are cut (-1)"""
+    out = {}
+    for a, v in kw.items():
+        if not isinstance(v, SymArray):
+            out[a] = v
+        elif a.startswith("p_id_"):
+            out[a] = SymArray([v.e[r] if r in keep_ptr else -1 for r in rows], v.dtype)
+        else:
+            out[a] = SymArray([v.e[r] for r in rows], v.dtype)
+    return out
+
+
+def check_lookup_rules(ck, n):
+    """the whole-column look-up rules (skip_vectorization): the value of row i is the value computed from row i and
+    the row its pointer names alone -- a look-up goes to exactly the person pointed to, wherever that row is"""
+    from gsv.checks import c01
+    for name, f in sorted(gt.all_internal_functions().items()):
+        if not gt.is_skipvec(f):
+            continue
+        for running in (False, True):
+            label = f"look-up rule {name}{' [p_id 0..n-1]' if running else ''} N={n}"
+            try:
+                kw, pre = c01.skipvec_args(f, n, running=running)
+                ptrs = [a for a in kw if a.startswith("p_id_")]
+                if len(ptrs) != 1 or "p_id" not in kw:
+                    ck.add_inconclusive(f"{label}: not of the form (p_id, one pointer, columns)")
+                    break
+                ptr, labs = kw[ptrs[0]], [int(x) for x in kw["p_id"].e]
+                full, c1 = run_real(f, **kw)
+                if full is None:
+                    ck.add_inconclusive(f"{label}: raises on every path")
+                    continue
+                errs = [g for g, k, w in c1.errors]
+                bad, cases = [], []
+                for i in range(n):
+                    for j in [None] + list(range(n)):
+                        rows = [i] if j in (None, i) else [i, j]
+                        cond = ptr.e[i].t < 0 if j is None else ptr.e[i].t == labs[j]
+                        small, c2 = run_real(f, **_restrict(kw, rows, {i}))
+                        if small is None:
+                            continue
+                        errs += [z3.And(cond, g) for g, k, w in c2.errors]
+                        bad.append(z3.And(cond, z3.Not(R.values_equal(full.e[i], small.e[0]))))
+                        cases.append((i, rows))
+                ck.functions |= c1.funcs
+            except R.Unsupported as e:
+                ck.add_inconclusive(f"{label}: {e}")
+                continue
+            r, m = ck.oblige(f"{label}: row i == rule on (row i, row pointed to)", list(pre) + ([z3.Not(z3.Or(errs))] if errs else []) + [z3.Or(bad)], 120,
+                             sample={"function": name, "rows": n, "claim": "F(x)[i] == F(x restricted to row i and the row its pointer names)[0]"})
+            ck.nontrivial.add(("lookup-rule", name, running, n))
+            if r == "sat":
+                conc = {k: (numpy.array([R.model_value(m, x) for x in v.e], dtype=v.dtype) if isinstance(v, SymArray) else v) for k, v in kw.items()}
+                what = lookup_rule_differs(f, conc)
+                if what:
+                    ck.violation(["lookup-rule", name], f"{label}: {what}", {"kind": "lookup-rule", "name": name, "args": {k: v.tolist() for k, v in conc.items() if isinstance(v, numpy.ndarray)}})
+                else:
+                    common.spurious("C11", f"{label}: model does not reproduce")
+
+
+def lookup_rule_differs(f, conc):
+    """real function on the whole population vs on (row i, row pointed to) for every i"""
+    ptrn = [a for a in conc if a.startswith("p_id_")][0]
+
+    def call(kw):
+        try:
+            return numpy.asarray(f(**kw)).tolist()
+        except Exception as e:   # noqa: BLE001
+            return f"raises {type(e).__name__}: {e}"[:100]
+
+    full = call(conc)
+    n = len(conc["p_id"])
+    for i in range(n):
+        js = [j for j in range(n) if conc["p_id"][j] == conc[ptrn][i] and j != i]
+        rows = [i] + js[:1]
+        kw = {}
+        for a, v in conc.items():
+            if isinstance(v, numpy.ndarray):
+                kw[a] = v[rows].copy()
+                if a == ptrn and len(rows) > 1:
+                    kw[a][1] = -1
+            else:
+                kw[a] = v
+        small = call(kw)
+        if isinstance(small, str) and isinstance(full, str):
+            continue
+        if isinstance(small, str) or isinstance(full, str) or abs(float(full[i]) - float(small[0])) > 1e-9:
+            return f"row {i} of {({k: v.tolist() for k, v in conc.items() if isinstance(v, numpy.ndarray)})}: whole population {full} but alone with the row it points to {small}"
+    return None
+
+
 def run(tier):
     ck = common.Check("C11", tier)
     rnd = random.Random(common.SEED)
@@ -607,6 +704,7 @@ def run(tier):
         check_grouped(ck, n)
         check_sum_by_p_id(ck, n)
         check_join(ck, n)
+        check_lookup_rules(ck, n)
     if tier == "quick":
         # pointer code is cheap enough for 4 rows on every change (fast paths keyed on first/last row need >= 4)
         check_sum_by_p_id(ck, 4)
@@ -639,6 +737,11 @@ def replay(path):
         want = reference_grouped(d["f"], args)
         print(out, want)
         return 0 if _close_list(out, want) else 1
+    if d["kind"] == "lookup-rule":
+        f = gt.all_internal_functions()[d["name"]]
+        what = lookup_rule_differs(f, {k: numpy.array(v) for k, v in d["args"].items()})
+        print(what)
+        return 1 if what else 0
     if d["kind"] == "pid":
         c = numpy.array(d["col"], dtype=d["dtype"])
         try:
